@@ -206,7 +206,7 @@ func (b *boundsClient) factForms(st *State) []*linForm {
 func (b *boundsClient) factForms0(st *State) []*linForm {
 	var fs []*linForm
 	var keys []string
-	for k := range st.facts {
+	for _, k := range sortedFactKeys(st) {
 		keys = append(keys, k)
 	}
 	sort.Strings(keys)
